@@ -25,6 +25,7 @@ class FakeSocket:
         self.connect_called: Any = None
         self.connect_result: int | None = None  # None = still in progress, 0 = ok, errno
         self.connect_reported = False  # SO_ERROR has been read after the connect completed
+        self.peer_gone = False
         self.inbox: list[Any] = []  # bytes chunk / b"" (EOF) / Exception instance
         self.sent: list[tuple[float, bytes]] = []
         self.send_error: Exception | None = None  # raise on the next send (async flavour)
@@ -67,6 +68,8 @@ class FakeSocket:
         raise BlockingIOError(errno.EINPROGRESS, "in progress")
 
     def getpeername(self) -> Any:
+        if self.peer_gone:  # the peer reset the connection right after it was established
+            raise OSError(errno.ENOTCONN, "Transport endpoint is not connected")
         return self.connect_called or ("0.0.0.0", 0)
 
     def getsockname(self) -> Any:
